@@ -45,12 +45,38 @@ def main(tier):
         for j in range(nb):
             kind, parts = r2.choice(BROKEN)
             inp.insert(r2.randrange(len(inp) + 1), (f"broken_{kind}_{j}", parts))
-        jobs.append({"repo": common.REPO, "seed": f"{run.seed}:{k}", "pool_size": sizes[k % len(sizes)], "max_delay": 0.08 if sizes[k % len(sizes)] > 1 else 0.0, "input": inp})
+        job = {"repo": common.REPO, "seed": f"{run.seed}:{k}", "pool_size": sizes[k % len(sizes)], "max_delay": 0.08 if sizes[k % len(sizes)] > 1 else 0.0, "input": inp}
+        if k % 2 == 1:
+            # a second and third call in the same process: same names, some with another behaviour (valid -> broken, broken -> valid,
+            # valid -> another instruction's text, one part -> two parts); a call must not depend on earlier calls
+            fol = []
+            cur = list(inp)
+            for c in range(2):
+                nxt = []
+                for nm, parts in cur:
+                    x = r2.random()
+                    if x < 0.12:
+                        parts = r2.choice(BROKEN)[1]
+                    elif x < 0.24:
+                        parts = beh[r2.choice(short)]
+                    elif x < 0.30:
+                        parts = beh[r2.choice(two)]
+                    elif x < 0.36 and nm.startswith("broken_"):
+                        parts = beh[r2.choice(short)]
+                    nxt.append((nm, list(parts)))
+                if c == 1:
+                    r2.shuffle(nxt)
+                    nxt = nxt[: len(nxt) * 2 // 3]
+                fol.append(nxt)
+                cur = nxt
+            job["followups"] = fol
+        jobs.append(job)
     # sequential reference (in-process, one call of the real per-task function per distinct input)
     distinct = {}
     for j in jobs:
-        for nm, parts in j["input"]:
-            distinct[(nm, tuple(parts))] = None
+        for pairs in [j["input"]] + j.get("followups", []):
+            for nm, parts in pairs:
+                distinct[(nm, tuple(parts))] = None
 
     def seq(key):
         nm, parts = key
@@ -109,17 +135,28 @@ def main(tier):
     ooo_runs = 0
     workers_seen = set()
     samples = []
+    calls = []
     for k, (job, res) in enumerate(zip(jobs, results)):
         if res is None or res.get("watchdog") or res.get("error"):
             run.note_inconclusive(f"pool run {k} (size {job['pool_size']}): {'watchdog' if res and res.get('watchdog') else (res or {}).get('error', 'no result')[-200:]}")
             continue
-        names = [nm for nm, _ in job["input"]]
-        rp = {"kind": "pool", "run": k, "pool_size": job["pool_size"], "seed": job["seed"], "input": job["input"]}
+        calls.append((k, 0, job, job["input"], res))
+        for c, (pairs, r2) in enumerate(zip(job.get("followups", []), res.get("followups", []))):
+            calls.append((k, c + 1, job, pairs, r2))
+    later_calls = 0
+    changed_entries = 0
+    for k, callno, job, pairs_in, res in calls:
+        names = [nm for nm, _ in pairs_in]
+        rp = {"kind": "pool", "run": k, "call": callno, "pool_size": job["pool_size"], "seed": job["seed"], "input": pairs_in, "earlier_calls": ([job["input"]] + job.get("followups", []))[:callno]}
+        if callno:
+            later_calls += 1
+            prev = dict(([job["input"]] + job.get("followups", []))[callno - 1])
+            changed_entries += sum(1 for nm, parts in pairs_in if nm in prev and list(prev[nm]) != list(parts))
         if res["order"] != names:
             missing = [n for n in names if n not in res["entries"]]
             extra = [n for n in res["order"] if n not in names]
             run.violation(f"pool run (size {job['pool_size']}): result keys/order differ from the input: missing {missing[:3]}, extra {extra[:3]}, order equal: {sorted(res['order']) == sorted(names)}", rp, key="keys")
-        for nm, parts in job["input"]:
+        for nm, parts in pairs_in:
             e = res["entries"].get(nm)
             if e is None:
                 continue
@@ -155,6 +192,7 @@ def main(tier):
                 "at least one run completed out of submission order",
         "samples": samples or [{"note": "none"}], "pool_runs": len(jobs), "pool_sizes": sorted({j["pool_size"] for j in jobs}), "tasks": tasks, "broken_behaviours_injected": faults,
         "runs_completed_out_of_order": ooo_runs, "distinct_completion_orders": len(orders), "distinct_task_worker_assignments": len(assignments), "worker_counts_seen": sorted(workers_seen),
+        "later_calls_in_one_process": later_calls, "entries_whose_behaviour_changed_between_calls": changed_entries,
     }, hard_inconclusive=None if tasks > 50 and ooo_runs > 0 else "no out-of-order completion observed / too few tasks")
 
 
